@@ -313,15 +313,19 @@ def runEngine (s0 : Scn) : List String := Id.run do
         i := i + 1
         continue
       | _ => pure ()
+      let pickP := fun (ids : List Nat) => ids.filterMap fun i => s.provs.find? (·.id == i)
+      let constructible := s.sdecls.isEmpty || Reg.checkDecls s.sdecls.toList s.tdecls.toList (pickP s.ctor)
       let (cfg', r) : Cfg × Except Exc Res := match op with
-        | .construct => match construct m s.opts s.fuel cfg with
+        | .construct => if !constructible then (cfg, .error .invalidDef) else match construct m s.opts s.fuel cfg with
           | (c, .ok _) => (c, .ok .none)
           | (c, .error e) => (c, .error e)
         | .fresh _ =>
+          if !constructible then (cfg, .error .invalidDef) else
           match construct m s.opts s.fuel cfg with
           | (c, .ok _) => (c, .ok .none)
           | (c, .error e) => (c, .error e)
         | .reconstruct =>
+          if !constructible then (cfg, .error .invalidDef) else
           match construct m s.opts s.fuel { cfg with queue := [], locked := false } with
           | (c, .ok _) => (c, .ok .none)
           | (c, .error e) => (c, .error e)
